@@ -81,6 +81,9 @@ impl StdioInterpreter {
         let messages = analyzer.take_messages();
         let lines = analyzer.take_source_file_lines();
         self.interpreter = analyzer.into_interpreter();
+        // The analyzer gives us a brand new interpreter, which knows nothing
+        // about our command-line options.
+        self.args.configure_interpreter(&mut self.interpreter);
         if self.args.skip_check {
             return Ok(());
         }
